@@ -272,7 +272,7 @@ def closure_bindings(P, closure, depth=0):
     created it: ({capture index: expr}, {parameter local: expr}).  `opt.map(|x| ..)` binds x to the payload of `opt`."""
     if "::{closure#" not in closure.path or depth > 4:
         return {}, {}
-    ppath = closure.path.rsplit("::{closure#", 1)[0]
+    ppath = closure.parent or closure.path.rsplit("::{closure#", 1)[0]
     parent = P.bodies.get("%s::%s" % (closure.crate, ppath))
     if parent is None:
         return {}, {}
@@ -787,3 +787,78 @@ def int_switch_tables(P, body, O=None):
             table[int(val)] = arm_effects(P, body, a, O)
         out.append((bb, F.rd(positional(ex)), table))
     return out
+
+
+# ---------------------------------------------------------------------------------------------------------------------
+# path conditions and selector bits
+def path_conditions(body, O, bb):
+    """Two-way switches that decide whether block `bb` runs, outermost first:
+    [(switch block, condition origin with negations removed, truth value of that origin on the way to bb)]"""
+    out = []
+    for s, t in body.switches():
+        if s == bb or not body.dominates(s, bb) or len(t["vals"]) != 1:
+            continue
+        zero_t, other_t = t["targets"][0], t["otherwise"]
+        if int(t["vals"][0]) != 0:
+            zero_t, other_t = other_t, zero_t
+        rz = bb in body.reach_from(zero_t, avoid=(s,))
+        ro = bb in body.reach_from(other_t, avoid=(s,))
+        if rz == ro:
+            continue
+        ex = O.switch_cond(s)
+        val = ro
+        while True:
+            if ex[0] == "un" and ex[1] == "Not":
+                ex = ex[2]
+                val = not val
+            elif ex[0] == "cast":
+                ex = ex[2]
+            else:
+                break
+        out.append((s, ex, val))
+    out.sort(key=lambda x: len(body.dom.get(x[0], ())))
+    return out
+
+
+def _is_read_bit(ex):
+    while ex[0] in ("try", "mut"):
+        ex = ex[1]
+    return ex[0] == "call" and X.last_seg(ex[1] or "") == "read_bit"
+
+
+def selector_prefix(P, body, O, cs, side):
+    """Selector bits that precede the codec call `cs` on every path to it (X.691 writes a constant bit pattern in front of
+    each alternative form of an encoding): for a writer the `write_bit(c)` calls dominating the call, c a constant or the
+    value of a dominating branch condition; for a reader the dominating branches on the result of `read_bit()`.
+    Returns a string over {0,1,?}."""
+    conds = path_conditions(body, O, cs.bb)
+    if side == "reader":
+        return "".join("1" if v else "0" for s, ex, v in conds if _is_read_bit(ex))
+    known = {}
+    for s, ex, v in conds:
+        known[X.render(X.strip(ex))] = v
+    bits = []
+    for c in body.calls():
+        if c.name != "write_bit" or c is cs or not c.args:
+            continue
+        if c.bb == cs.bb or not body.dominates(c.bb, cs.bb):
+            continue
+        # the call must lie on every path: its continuation dominates cs as well
+        a = O.call_args(c)[-1]
+        neg = False
+        e = a
+        while True:
+            if e[0] == "un" and e[1] == "Not":
+                e = e[2]
+                neg = not neg
+            elif e[0] == "cast":
+                e = e[2]
+            else:
+                break
+        if e[0] == "const":
+            v = bool(e[1])
+        else:
+            v = known.get(X.render(X.strip(e)))
+        bits.append((len(body.dom.get(c.bb, ())), "?" if v is None else ("1" if (v != neg) else "0")))
+    bits.sort()
+    return "".join(b for _, b in bits)
